@@ -138,7 +138,11 @@ func (g *gen) authorize() {
 	r := g.r
 	c := g.clients[r.Intn(len(g.clients))]
 	rts := []string{"code"}
-	switch r.Intn(10) {
+	hyb := r.Intn(10)
+	if (g.bias == "C08" || g.bias == "C09" || g.bias == "C01" || g.bias == "C04") && r.Intn(2) == 0 {
+		hyb = r.Intn(3) // more hybrid flows with an access token from the authorization endpoint
+	}
+	switch hyb {
 	case 0, 1:
 		rts = []string{"code", "token"}
 	case 2:
@@ -328,6 +332,18 @@ func (g *gen) ownerOf(tok string) string {
 func (g *gen) revoke() {
 	r := g.r
 	tok := g.anyToken()
+	if (g.bias == "C08" || g.bias == "C09") && r.Intn(2) == 0 {
+		// prefer the access token a hybrid flow handed out at the authorization endpoint
+		var cands []string
+		for _, gr := range g.grants {
+			if gr.hybridAT != "" {
+				cands = append(cands, gr.hybridAT)
+			}
+		}
+		if len(cands) > 0 {
+			tok = cands[r.Intn(len(cands))]
+		}
+	}
 	client, cred := g.ownerOf(tok), "1"
 	switch r.Intn(8) {
 	case 0:
@@ -419,10 +435,20 @@ func (g *gen) History(n int) {
 			g.authorize()
 		case x < 30 && len(pending) > 0:
 			gr := pending[r.Intn(len(pending))]
-			if r.Intn(10) < 3 {
-				g.redeem(gr, 1+r.Intn(7))
+			if g.bias == "C03" && gr.verifier != "" {
+				// sequences of attempts on one code: wrong / malformed / absent / other-method verifier, then maybe the right one
+				for k := r.Intn(4); k > 0; k-- {
+					g.redeem(gr, []int{3, 3, 3, 7, 2}[r.Intn(5)])
+				}
+				if r.Intn(4) != 0 {
+					g.redeem(gr, 0)
+				}
+			} else {
+				if r.Intn(10) < 3 {
+					g.redeem(gr, 1+r.Intn(7))
+				}
+				g.redeem(gr, 0)
 			}
-			g.redeem(gr, 0)
 		case x < 38:
 			// replay / attack on any grant's code
 			gr := g.grants[r.Intn(len(g.grants))]
